@@ -293,10 +293,18 @@ def family_objlist_randsz(tier, seed, n=None):
         sub = {"base": "", "cb": t % 2 == 0,
                "fields": [fld("x", 3, False), fld("y", 2, False), fld("z", 2, False, rand=False, init=rnd.randrange(4))],
                "blocks": [{"name": "sc", "dynamic": False, "body": [E(B("ne", F("y"), F("z")))]}]}
+        tiny = t % 3 == 2
+        if tiny:
+            # few solver bits: TLC decides SolveFailure <=> no (size, values) candidate (fail_iff_unsat over sizes)
+            sub["fields"] = [fld("x", 3, False, rand=False, init=0), fld("y", 1, False), fld("z", 1, False, rand=False, init=rnd.randrange(2))]
         lo = rnd.choice([0, 1, 1])
-        body = [E({"k": "in", "e": {"k": "size", "l": "ol"}, "items": [{"k": "r", "lo": lit(lo), "hi": lit(nobj)}], "neg": False}),
+        # the declared bound may exceed the population: the list can never expose more objects than the user appended
+        hi = nobj + [0, 2, 1][t % 3]
+        body = [E({"k": "in", "e": {"k": "size", "l": "ol"}, "items": [{"k": "r", "lo": lit(lo), "hi": lit(hi)}], "neg": False}) if t % 4 != 3 else
+                E(B("ge", {"k": "size", "l": "ol"}, lit(lo))),
                 # the element at position i carries i (+ a): a hidden or stale expansion shows as a wrong value
-                FE("ol", "j", [E(B("eq", SUB("ol", IX("j"), "x"), B("add", IX("j"), lit(t % 3))))], it=False, idx=True),
+                FE("ol", "j", [E(B("eq", SUB("ol", IX("j"), "x"), B("add", IX("j"), lit(t % 3))))], it=False, idx=True) if not tiny else
+                FE("ol", "j", [E(B("le", SUB("ol", IX("j"), "y"), IX("j")))], it=False, idx=True),
                 FE("ol", "e", [E(B(rnd.choice(["le", "ne", "ge"]), IT("e", "y"), F("a")))])]
         if t % 3 == 1:
             body.append(E(B(rnd.choice(["le", "ge", "ne"]), {"k": "size", "l": "ol"}, F("a"))))
@@ -311,8 +319,11 @@ def family_objlist_randsz(tier, seed, n=None):
             ops.append({"op": "call", "call": wcall([E(B("eq", {"k": "size", "l": "ol"}, lit(want)))])})
             if k_ % 3 == 2:
                 ops.append({"op": "call", "call": mcall()})
-            if k_ == 4:
-                ops.append({"op": "set", "p": "o1.ol[0].z", "v": bits(rnd.randrange(4), 2)})
+            if k_ == 4 and not tiny:
+                ops.append({"op": "set", "p": "o1.ol[0].z", "v": bits(rnd.randrange(2), 1) if tiny else bits(rnd.randrange(4), 2)})
+        # at least the whole population (the declared bound may admit more): exactly the population is the only way
+        ops.append({"op": "call", "call": wcall([E(B("ge", {"k": "size", "l": "ol"}, lit(nobj)))])})
+        ops.append({"op": "call", "call": wcall([E(B("gt", {"k": "size", "l": "ol"}, lit(nobj - 1)))])})
         ops.append({"op": "call", "call": wcall([E(B("eq", {"k": "size", "l": "ol"}, lit(nobj + 1)))])})     # more than populated: fails
         ops.append({"op": "call", "call": mcall()})
         out.append({"id": "L/objrs/%s/%d" % ("core" if core else "s%d" % seed, t), "world": world, "ops": ops, "tags": []})
